@@ -339,6 +339,37 @@ func (e *Env) evalIdent(name string) Val {
 			}
 		}
 		e.fail("ranged outside a slice range loop")
+	case "rangekey", "rangeval":
+		// the key / value variable of the innermost enclosing range loop, whatever it is called
+		if e.loop != nil && e.fr != nil {
+			for _, in := range e.loop.header.Instrs {
+				if n, ok := in.(*ssa.Next); ok {
+					if tup, ok := e.fr.tuples[n]; ok && len(tup) == 3 {
+						it := e.fr.iters[n.Iter]
+						if it != nil {
+							mt := it.mapT.Underlying().(*types.Map)
+							if name == "rangekey" {
+								return Val{T: tup[1], Ty: mt.Key()}
+							}
+							return Val{T: tup[2], Ty: mt.Elem()}
+						}
+					}
+				}
+			}
+			// slice range: element ranged[loopi-1]
+			idx := e.evalIdent("loopi")
+			i := App(SInt, "-", idx.T, IntN(1))
+			if name == "rangekey" {
+				return Val{T: i, Ty: types.Typ[types.Int]}
+			}
+			sl := e.evalIdent("ranged")
+			var et types.Type
+			if st, ok := sl.Ty.Underlying().(*types.Slice); ok {
+				et = st.Elem()
+			}
+			return Val{T: Select(u.g.reg.SlData(sl.T), i), Ty: et}
+		}
+		e.fail("%s outside a range loop", name)
 	case "visited":
 		if e.loop != nil && e.fr != nil {
 			if it := e.loopIter(); it != nil {
